@@ -47,6 +47,8 @@ PROP = [  # (substring of the commit subject, property, what failed before the f
  ('matrix product for numpy.matrix input', 'C08', 'reactive_fluxes / net_fluxes with numpy.matrix tprob silently returned a matrix product instead of the element-wise flux'),
  ('assigns_to_counts inferred state count overflowed', 'C03', 'assigns_to_counts with the state count inferred raised ValueError for uint8/uint16/int8 data visiting the top state of the dtype'),
  ('append replaced an array whose rows are all empty', 'C06', 'RaggedArray([[],[]]).append([[1]]) gave [[1]] instead of [[],[],[1]]'),
+ ('weighted_mi default n_feature_states', 'C18', 'weighted_mi with the default n_feature_states raised ValueError when a feature id equals its dtype maximum (127 int8, 255 uint8) or is >= 32767: the count wrapped'),
+ ('paired reads with a one-element list or narrow-int', 'C05', 'a[[0,1],[2]] returned a 2-d block, a[[0,1,2],[-1]] raised; int8/int16 negative index arrays into rows or arrays longer than the dtype range wrapped to a wrong cell or raised OverflowError'),
 ]
 log = subprocess.run(['git', '-C', '/repo', 'log', '--reverse', '--format=%h|%s'], capture_output=True, text=True).stdout.strip().split('\n')
 fixed = []
